@@ -48,7 +48,11 @@ CmpResOK(op, r, o) ==
 
 CompareFails(op, a, b, r) ==
   IF a.t = "tf" /\ b.t = "tf" THEN
-       IF HasNaNWord(a.x) \/ HasNaNWord(b.x) THEN Chk(CmpResOK(op, r, 2), "C06", "nan_word_not_unordered")
+       IF HasNaNWord(a.x) \/ HasNaNWord(b.x)
+       THEN Chk(CmpResOK(op, r, 2), "C06", "nan_word_not_unordered")
+            \* C12: the NAN constant compares unequal to itself
+            \cup (IF a.x = TF(NaN, NaN) /\ b.x = TF(NaN, NaN) /\ op \in {"eq", "ne", "pcmp"}
+                  THEN Chk(CmpResOK(op, r, 2), "C12", "nan_equal_to_itself") ELSE {})
        ELSE IF Valid(a.x) /\ Valid(b.x) THEN Chk(CmpResOK(op, r, DCmp(Value(a.x), Value(b.x))), "C06", "compare_differs_from_exact")
        ELSE {Skip}
   ELSE IF a.t = "tf" /\ b.t = "f" THEN
